@@ -411,7 +411,12 @@ class RequestWideParams(object):
         # of an integer - for the last occurrence, which is the one a dict
         # of the query parameters keeps.
         if limit:
-            limit = int(limit[-1])
+            try:
+                limit = int(limit[-1])
+            except ValueError as exc:
+                # e.g. more digits than int() converts
+                raise webob.exc.HTTPBadRequest(
+                    'Invalid query string parameters: limit: %s' % exc)
 
         # TODO(efried): Make it an error to specify group_policy more than once
         #  - maybe when we make it optional.
